@@ -117,6 +117,8 @@ def gen_fmt_attr(rng, field_names, allow_variant=False, bare_bias=False):
         if bare_bias and rng.chance(1, 2):
             spec = rng.choice(["", ":?", ":x", ":p", ":e"])
         k = rng.below(8)
+        if allow_variant and rng.chance(1, 3):
+            k = rng.choice([4, 4, 5])
         unraw = [f[2:] if f.startswith("r#") else f for f in field_names]
         if k == 0 and unraw:
             pieces.append("{" + rng.choice(unraw) + spec + "}")
